@@ -8,7 +8,7 @@ SCR=${VERIF_SCRATCH:-/var/tmp/mpir-verif-scratch}; mkdir -p "$SCR/l0"
 FAIL=0
 for f in Ints Bin2 Div2 Un1 PowM Primes Comb Radix; do
   printf 'CONSTANT Family = "%s"\n' $f > spec/L0Equiv_$f.cfg
-  ( lib/tlc.sh --timeout 900 -- -config L0Equiv_$f.cfg L0Equiv.tla > "$SCR/l0/$f.out" 2>&1 ) &
+  ( lib/tlc.sh --timeout 300 -- -config L0Equiv_$f.cfg L0Equiv.tla > "$SCR/l0/$f.out" 2>&1 ) &
 done
 wait
 for f in Ints Bin2 Div2 Un1 PowM Primes Comb Radix; do
